@@ -163,6 +163,7 @@ def run(ck):
     r1_pairs(ck, w)
     r2_determinism(ck, w)
     r3_pk_rebuild(ck, w)
+    r4_srs_size(ck, w)
 
 
 def r1_pairs(ck, w):
@@ -296,3 +297,24 @@ def r3_pk_rebuild(ck, w):
         ok = bool(res) and all(o for _, _, o in res)
         ck.record('C17.R3', 'downsize:recompute-lagrange', ok, 'every truncation of the monomial basis is followed by g_to_lagrange',
                   'ParamsKZG::downsize no longer recomputes the Lagrange basis from the truncated monomial basis', reach.loc(b))
+
+
+def r4_srs_size(ck, w):
+    """key generation refuses parameters whose size differs from the domain of the key"""
+    from ..engines import taint
+    ck.rule('C17.R4', 'every verifying-key generation entry point compares the size of the parameters with the k of the key EXACTLY (escaping conditional on '
+                      '`params.max_k() != k`): the fixed columns are committed with the first 2^k elements of the parameters\' Lagrange basis, which is the basis of '
+                      'the 2^k domain only when the parameters have that size.  With `<` only, larger parameters silently yield a different, wrong key (it rejects '
+                      'honest proofs and differs from the key generated after downsizing).')
+    fs = [f for f in w.all_fns(['proofs']) if f['file'].endswith('plonk/keygen.rs') and f['name'].startswith('keygen_vk')]
+    ck.floor('C17.R4', 'vk generation entry points', len(fs), 2)
+    for f in fs:
+        ok = False
+        for n in walk(f['body']):
+            if n.get('k') == 'if' and taint.diverges(n['a']):
+                c = peel(n['c'])
+                if c.get('k') == 'bin' and c.get('op') == '!=' and any(m.get('m') == 'max_k' for m in hirq.calls(c)):
+                    ok = True
+        ck.record('C17.R4', f'{f["_nid"]}:exact-srs-size', ok, 'refuses parameters of another size',
+                  f'{f["_nid"]} does not refuse parameters whose max_k differs from the k of the key: with larger parameters the commitments use the Lagrange basis '
+                  f'of the wrong domain', hirq.fn_loc(f))
